@@ -51,7 +51,7 @@ pub fn gen_string(src: &mut Src) -> String {
     if src.chance(200) {
         src.pick(STRINGS).to_string()
     } else {
-        let n = src.below(6);
+        let n = if src.chance(20) { src.size(200) } else { src.below(6) };
         let mut s = String::new();
         for _ in 0..n {
             s.push(gen_char(src));
@@ -112,7 +112,7 @@ pub fn gen_json(src: &mut Src, depth: usize, o: &DocOpts) -> J {
 }
 
 pub fn gen_array(src: &mut Src, depth: usize, o: &DocOpts) -> J {
-    let n = src.below(o.max_width + 1);
+    let n = if depth <= 1 && src.chance(10) { src.size(150) } else { src.below(o.max_width + 1) };
     // sometimes homogeneous arrays of objects (useful for filters / projections)
     let homogeneous = src.chance(96);
     let mut out = vec![];
